@@ -20,12 +20,15 @@ Reading used here
 * "best effort, a daemon failure there is tolerated": for a moved pin the daemon holds no pin,
   or the daemon itself failed an unpin request for that CID since its last pin/unpin instruction.
 * "a recover round with IPFS healthy": from a quiescent point, `RecoverAll` (or `Recover(c)`)
-  returning no error, then only successful daemon calls, up to the next quiescent point.
+  returning no error while the daemon's reads (pin/ls) work, then only successful daemon calls, up to
+  the next quiescent point.
 * "the re-issued pin using the options recorded in the shared pinset": a Pin call that appears at
   the daemon because of a recover carries exactly the pin the shared pinset records.
 * "an instruction that cannot be queued is reported as an error rather than dropped": an
   instruction that returns an error leaves the CID in an error status; one that returns nil leaves
-  it queued / in progress (pin resp. unpin); nothing else is returned.
+  it queued / in progress (pin resp. unpin); nothing else is returned — except by `RecoverAll` when the
+  daemon's pin listing cannot be read: then it must say so (an error), not return nil with the errored
+  CIDs still errored.
 -/
 import ClusterVerif.Model.C05
 namespace CV.C05
@@ -65,6 +68,10 @@ inductive Act where
   | ok (c : Nat) (sel : Option CallKind)      -- ... applies it if it has not yet, and answers nil
   | err (c : Nat) (sel : Option CallKind)     -- the daemon answers an error
   | lose (c : Nat)        -- the daemon drops the pin behind the tracker's back
+  | lsFail (on : Bool)    -- from now on the daemon's reads (PinLsCid / PinLs) fail / succeed again
+  | snapList              -- a concurrent RecoverAll reads the pinset NOW (`st.List`) ...
+  | recoverAllRest        -- ... and this is the rest of it, after whatever was scripted in between. Not a recover ROUND in the
+                          -- sense of the second sentence (it overlaps instructions); the first sentence judges its outcome
   | race (d : Act) (i : Act)  -- the daemon answers (`ok` / `err`) while instruction `i` is being issued:
                               -- the two are not ordered
   deriving DecidableEq, Repr
@@ -115,6 +122,7 @@ def reported (n : Nat) (f : Frame) : Bool :=
   | .recoverAll =>
     (f.ret == .nil && (List.range n).all (fun c => !(f.obs.status c == .pinError || f.obs.status c == .unpinError)))
     || f.ret == .full
+    || (f.ret == .other && f.obs.lsDown)   -- the listing could not be read: reported, nothing recovered
   | _ => true
 
 def sameCall (a b : CallObs) : Bool := a.kind == b.kind && a.cid == b.cid
@@ -140,6 +148,7 @@ def healedCids (n : Nat) : List Frame → Option (List Nat × Obs)
   | [] => none
   | f :: rest =>
     let scope : Option (List Nat) :=
+      if f.obs.lsDown then none else   -- a round during which the daemon's reads fail is not "IPFS healthy"
       match f.act, f.ret with
       | .recoverAll, .nil => some (List.range n)
       | .recover c, .nil => some [c]
